@@ -90,10 +90,10 @@ def idFromSeed (seed : Nat) (salt : Nat) : List UInt8 :=
   (List.range 256).map fun i => UInt8.ofNat ((seed * 31 + i * 7 + salt) % 256)
 
 /-- Start-up: `create_connections_from_ips` over `n` addresses (address token `i + 1`, conn id `i + 1`). -/
-def initSys (n seed now : Nat) : S :=
-  { links := (List.range n).map fun i => FLink.newUplink (i + 1) (i + 1) now,
+def initSys (n seed now : Nat) (idBase : Nat := 0) : S :=
+  { links := (List.range n).map fun i => FLink.newUplink (idBase + i + 1) (i + 1) now,
     reg := Reg.Reg.new (idFromSeed seed 0) (idFromSeed seed 101),
-    io := (List.range n).map (· + 1) }
+    io := (List.range n).map (idBase + · + 1) }
 
 /-- The outcomes of the `connect_uplink` attempts of a reload: an address in `fails` is refused (binder
 error), every other attempt succeeds and draws the next canonical conn id (`created + 1`, … : the harness
@@ -145,6 +145,12 @@ def step (s : S) (toks : List String) : S × String :=
     match n.toNat?, seed.toNat?, now.toNat? with
     | some n, some seed, some now => let s' := initSys n seed now; (s', showSys s')
     | _, _, _ => bad
+  | ["init", n, seed, now, base] =>
+    -- production-width conn ids: `base + i + 1` (the real ids are random u64s; small ids hide every narrowing cast)
+    match n.toNat?, seed.toNat?, now.toNat?, base.toNat? with
+    | some n, some seed, some now, some base =>
+      if base + 100000 < 18446744073709551616 then let s' := initSys n seed now base; (s', showSys s') else bad
+    | _, _, _, _ => bad
   | ["probe", now] =>
     match now.toNat? with
     | some now =>
@@ -354,6 +360,11 @@ def stepD (d : DS) (toks : List String) : DS × String :=
     if o == "bad-op" then ({ d with s := s' }, o) else
     -- start-up: a fresh filter and a fresh controller next to the fresh connections
     ({ d with s := s', created := n.toNat?.getD 0, cls := Srtla.Classifier.State.init, ctl := [] }, o)
+  | ["init", n, _, _, b] =>
+    let (s', o) := step d.s toks
+    if o == "bad-op" then ({ d with s := s' }, o) else
+    -- canonical ids continue after the start-up ones: `base + n + 1`, ...
+    ({ d with s := s', created := b.toNat?.getD 0 + n.toNat?.getD 0, cls := Srtla.Classifier.State.init, ctl := [] }, o)
   | _ => let (s', o) := step d.s toks; ({ d with s := s' }, o)
 
 /-! ## The receive side (`Model/Rx.lean`): ops `rxpush`, `rxerr`, `rxrun`, and the reader management of the arms -/
